@@ -594,7 +594,8 @@ class _QueryMessage(_MessageType):
 
         if ProtocolVersion.uses_int_query_flags(protocol_version):
             write_uint(f, flags)
-        else:
+        elif protocol_version >= 2:
+            # protocol v1 QUERY is <query><consistency> only: no flags byte
             write_byte(f, flags)
 
         if self.query_params is not None:
